@@ -426,17 +426,7 @@ func (w *World) Anchors() *Anchors {
 					}
 				}
 			}
-			if c, ok := in.(*ssa.Call); ok && calleeName(c) == "context.WithTimeout" {
-				// duration argument's origin call
-				if ex, ok := origin(c.Call.Args[1]).(*ssa.Extract); ok {
-					if cc, ok := ex.Tuple.(*ssa.Call); ok {
-						if f := staticCallee(cc); f != nil && w.inRoot(f) {
-							a.TimeoutParse = f
-							a.How["TimeoutParse"] = "its result is the duration argument of context.WithTimeout in Create"
-						}
-					}
-				}
-			}
+			_ = in
 		})
 	}
 	// the close function of Ch: the method that writes the `finished`-style flag and cancels all streams:
@@ -450,6 +440,44 @@ func (w *World) Anchors() *Anchors {
 				}
 			}
 		})
+	}
+	// timeout parser: its result is the duration argument of context.WithTimeout in Create, or in a helper split off Create
+	if a.Create != nil {
+		scan := []*ssa.Function{a.Create}
+		for d := 0; d < 2; d++ {
+			for _, f := range append([]*ssa.Function{}, scan...) {
+				allInstrsLocal(f, func(in ssa.Instruction) {
+					ci, ok := in.(*ssa.Call)
+					if !ok {
+						return
+					}
+					g := staticCallee(ci)
+					if g == nil || g.Blocks == nil || !w.inRoot(g) || g.Parent() != nil || (g.Object() != nil && g.Object().Exported()) || len(w.callSitesOf(g)) != 1 {
+						return
+					}
+					for _, x := range scan {
+						if x == g {
+							return
+						}
+					}
+					scan = append(scan, g)
+				})
+			}
+		}
+		for _, f := range scan {
+			allInstrsLocal(f, func(in ssa.Instruction) {
+				if c, ok := in.(*ssa.Call); ok && calleeName(c) == "context.WithTimeout" {
+					if ex, ok := origin(c.Call.Args[1]).(*ssa.Extract); ok {
+						if cc, ok := ex.Tuple.(*ssa.Call); ok {
+							if g := staticCallee(cc); g != nil && w.inRoot(g) {
+								a.TimeoutParse = g
+								a.How["TimeoutParse"] = "its result is the duration argument of context.WithTimeout in (a helper of) Create"
+							}
+						}
+					}
+				}
+			})
+		}
 	}
 	// API methods by name (exported: cannot change without breaking the interface)
 	a.ClientSend, a.ClientRecv = w.methodFn(a.CS, "SendMsg"), w.methodFn(a.CS, "RecvMsg")
